@@ -2,6 +2,7 @@
    SymCoreWFOps.v (parent / path), SymCoreIds.v (identities). *)
 From PG Require Import Common.Tactics Model.SymCoreDefs Model.SymCoreOps Model.SymCoreSpec
      Proofs.SymCoreBase Proofs.SymCoreWF Proofs.SymCoreWFOps Proofs.SymCoreIds.
+From PG Require Import Model.SymCoreC02 Proofs.SymCoreExtWF.
 From Coq Require Import NArith.
 
 (* [WF st] (Model/SymCoreSpec.v): every tree the user holds is where it believes to be, node by node -- the stored parent of
@@ -63,3 +64,20 @@ Theorem C01_no_node_twice : forall st r1 p1 r2 p2 i k1 pa1 pt1 fl1 its1 k2 pa2 p
   r1 = r2 /\ p1 = p2.
 Proof. exact no_node_twice_WF. Qed.
 Print Assumptions C01_no_node_twice.
+
+(* The whole list / dict surface.  The C02 extension of the model (Model/SymCoreC02.v) adds slice assignment l[a:b:c] = vs, slice
+   deletion del l[a:b:c] and the merges d | m, m | d to the catalogue ([op2], [step2]; [step2 q st (Base o) = step q st o]).
+   Every step over the extended catalogue preserves WF too -- whatever the slice, the values, the scope stack, and whether the
+   batch of writes of a slice assignment is refused half-way ... *)
+Theorem C01_step2_wf : forall q st o, WF st -> WF (fst (step2 q st o)).
+Proof. exact step2_WF. Qed.
+Print Assumptions C01_step2_wf.
+(* ... hence every finite history of base and extension operations from any constructed forest does (all state theorems above --
+   child reports container, root reports no parent, path lookup, no node twice -- therefore hold in every state so reached). *)
+Theorem C01_tree_integrity_full_surface : forall q ls ops,
+  forallb lit_valid ls = true -> WF (run_ops2 q (init_forest ls empty_state) ops).
+Proof. exact history2_WF. Qed.
+Print Assumptions C01_tree_integrity_full_surface.
+Theorem C01_step2_extends_step : forall q st o, step2 q st (Base o) = step q st o.
+Proof. exact step2_base. Qed.
+Print Assumptions C01_step2_extends_step.
